@@ -130,7 +130,8 @@ def run_property(prop, tier, seed=0, only=None, jobs=None, verbose=True):
             q.setdefault("module", mod_name)
             q.setdefault("blocks", [])
             q.setdefault("sel", {})
-        pending = [Job(q) for q in queries]
+        # longest budgets first, so that the long poles do not start last
+        pending = [Job(q) for q in sorted(queries, key=lambda q: -float(q.get("cost", q.get("timeout", 60))))]
         running = []
         records = {q["id"]: {"id": q["id"], "sel": q["sel"], "fn": q["fn"], "rounds": [], "final": None, "twin": None, "known": [], "spurious": []} for q in queries}
         violations = []
